@@ -5,8 +5,12 @@ worker stays alive below max_requests, stops at max_requests + its jitter, the l
 response is complete (keep-alive on and off).  E3 part: the real Arbiter.run() on the simulated kernel
 while one or several workers leave by themselves at the same instant, each exit placed while the
 master sleeps or between two source lines of its pass over the worker table: the master stays in its
-loop, kills nobody, the pool is refilled.  E4 part: real servers of every worker class under sequential and concurrent
-load; every client outcome classified, requests counted per answering pid, pool size monitored.
+loop, kills nobody, the pool is refilled - also with timeout = 0 (workers are never timed out).  E5 part: the real
+ThreadWorker.run() under the scripted scheduler: work handed to the pool is handled, and every readable event of an accepted
+connection that select() hands to the loop is acted upon, also when a pool thread reached the limit while the loop was polling
+(a request arriving on a connection accepted earlier).  E4 part: real servers of every worker class under sequential and concurrent
+load; every client outcome classified, requests counted per answering pid, pool size monitored; a request that needs seconds in
+flight when another one reaches the limit (gevent, eventlet, gthread); timeout = 0.
 """
 import json
 import os
@@ -21,7 +25,9 @@ RULE = ("E2 cell = (worker loop, max_requests 0..6, jitter 0..3, requests per co
         "size 1-4, number of workers leaving at the same instant, instant on / off the master's wake-up, placement of each exit: "
         "while the master sleeps or before the k-th source line of its pass over the worker table); live cell = (worker class, "
         "workers 1-2, max_requests 2-5, jitter 0-2, load shape sequential / 8 concurrent clients, keep-alive 0 / 2, bind tcp / unix "
-        "/ both); distinct = cell tuple; every cell is non-trivial")
+        "/ both, timeout 30 / 0; or: a 4 s request in flight at the limit); E5 cell = seeded history of the scripted gthread loop, every "
+        "fifth one with the limit reached while the loop polls and a late request on an earlier connection; distinct = cell tuple; "
+        "every cell is non-trivial")
 
 
 # ---- E2 counting rule ------------------------------------------------------------------------------
@@ -71,12 +77,79 @@ def e2_failing_cell(run, e2, kind, m, j, keepalive=2):
     return v
 
 
+def e5_discards(k):
+    """Readable events of ACCEPTED connections that select() handed to the loop and the loop did not act upon: between that
+    select() and the next one (or the closing of the poller when run() leaves its loop) the connection must have been handed to
+    the pool or closed.  The unchanged loop runs the callback of every key of a select() result, whether or not a pool thread has
+    meanwhile reached max_requests; a connection that has NOT been reported readable to the loop when it leaves is the known
+    finding and is not judged here.  -> ([(mechanism, summary)], events seen with alive == False that were acted upon)"""
+    v, acted_after_limit = [], 0
+    pending = None
+    for i, e in enumerate(k.log):
+        if e[1] not in ("select-returned", "poller-closed"):
+            continue
+        if pending is not None:
+            j, socks, alive = pending
+            acted = set(x[2] for x in k.log[j:i] if x[1] in ("dispatch", "close"))
+            for cid, nbytes, connected in socks:
+                if cid in acted:
+                    if not alive:
+                        acted_after_limit += 1
+                elif nbytes and connected:
+                    v.append(("readable-event-of-accepted-connection-discarded",
+                              "connection %d (accepted earlier, client connected, %d request bytes waiting) was reported readable by "
+                              "select() at t=%.3f (worker.alive was %s then) and the loop neither handed it to the pool nor closed it "
+                              "before %s: the request is never handled" % (
+                                  cid, nbytes, k.log[j][0], alive, "leaving run()" if e[1] == "poller-closed" else "its next select()")))
+        pending = (i, e[2], e[3]) if e[1] == "select-returned" else None
+    return v[:1], acted_after_limit
+
+
+def e5_late_request_cell(run, e5, rng):
+    """The limit is reached in a pool thread WHILE the loop sits in select(), and what wakes that select() is a request arriving on
+    a connection the worker accepted earlier (a pre-connected client, a slow sender): it is in the select() result, so the loop
+    dispatches it and it is answered like any request in flight."""
+    m = rng.randint(1, 3)
+    cfg = {"threads": rng.randint(2, 4), "worker_connections": 10, "keepalive": rng.choice([0, 2]), "max_requests": m,
+           "_log_selects": True}
+    late = rng.randint(1, 2)                     # connections whose request comes late
+    n = m + late + rng.randint(0, 1)             # (and perhaps one that never sends)
+    hist = [("connect", cid, 0) for cid in range(n)] + [("time", 0.2)]
+    for cid in range(m - 1):
+        hist.append(("send", cid, rng.choice(["close", "ka"])))
+        hist.append(("time", 0.1))
+    hist += [("send", m - 1, "gated"), ("time", rng.choice([0.1, 0.4])), ("release", m - 1)]
+    for cid in range(m, m + late):
+        hist.append(("send", cid, rng.choice(["ka", "close"])))
+    hist.append(("time", 3.0))
+    case = {"cfg": cfg, "listeners": 1, "polite": True, "history": [list(x) for x in hist]}
+    k = e5.run_history(cfg, [tuple(x) for x in hist], 1)
+    judged = ("dispatched-request-dropped-before-handling", "request-read-then-connection-closed-unanswered",
+              "closed-under-running-request")
+    v = [(mm, s) for mm, s in k.violations if mm in judged]
+    dv, acted = e5_discards(k)
+    v += dv
+    run.count("e5_histories")
+    run.count("e5_late_request_histories")
+    if acted:
+        run.count("e5_late_request_dispatched_after_limit", acted)
+        c = k.conns.get(m)
+        if not v and c is not None and b"HTTP/1.1 200" not in c.sent and not k.hang:
+            v.append(("late-request-dispatched-but-unanswered", "connection %d: its request was dispatched after the limit had been "
+                      "reached and run() returned without a response having been written (sent %r)" % (m, c.sent[:60])))
+        elif not v:
+            run.count("e5_late_request_answered")
+    if k.worker is not None and not k.worker.alive and getattr(k, "end", "") == "returned":
+        run.count("e5_worker_left_loop_at_limit")
+    return v, case, k
+
+
 def e5_cell(run, e5, rng):
     """The threaded worker leaving its loop at max_requests while work is queued for its pool (scripted scheduler, engine E5):
     a request that was handed to the pool is handled, not dropped."""
     from checks import c13
     cfg = {"threads": rng.randint(1, 2), "worker_connections": rng.choice([4, 6, 10]), "keepalive": rng.choice([0, 2]),
-           "max_requests": rng.randint(1, 4)}
+           "max_requests": rng.randint(1, 4), "_log_selects": True}
     if rng.random() < 0.3:
         cfg["_lock_delay"] = rng.choice([0.3, 0.6])
         cfg["_lock_seed"] = rng.randrange(1 << 30)
@@ -97,7 +170,11 @@ def e5_cell(run, e5, rng):
     judged = ("dispatched-request-dropped-before-handling", "request-read-then-connection-closed-unanswered",
               "closed-under-running-request")
     v = [(m, s) for m, s in k.violations if m in judged]
+    dv, acted = e5_discards(k)
+    v += dv
     run.count("e5_histories")
+    if acted:
+        run.count("e5_events_acted_upon_after_limit", acted)
     if k.worker is not None and not k.worker.alive and getattr(k, "end", "") == "returned":
         run.count("e5_worker_left_loop_at_limit")
     if k.reach.get("queued_work_cancelled_at_shutdown"):
@@ -196,13 +273,13 @@ def e3_murder_lines(e3):
     return lines[0], lines[-1]
 
 
-def e3_cell(run, e3, workers, nexits, at, plan):
+def e3_cell(run, e3, workers, nexits, at, plan, timeout=30):
     """`nexits` of `workers` healthy workers leave by themselves with status 0 at the same instant (what workers that reach
     max_requests together do); each exit is placed by `plan`.  The master must stay in its loop, must not signal anybody, and the
     pool must be back at `workers` processes."""
     import signal as _signal
     lo, hi = e3_murder_lines(e3)
-    sc = {"workers": workers, "timeout": 30, "graceful_timeout": 3, "default_policy": {}, "spawn_policy": {}, "max_ticks": 200,
+    sc = {"workers": workers, "timeout": timeout, "graceful_timeout": 3, "default_policy": {}, "spawn_policy": {}, "max_ticks": 200,
           "events": [{"type": "worker_exit", "which": 0, "status": 0, "at": at} for _ in range(nexits)] +
                     [{"type": "end", "at": at + 5.0}]}
     k = e3.run_history(sc, ExitPlacement(plan, lo, hi))
@@ -215,10 +292,13 @@ def e3_cell(run, e3, workers, nexits, at, plan):
         run.count("e3_worker_exits_while_master_sleeps")
     if nexits > 1:
         run.count("e3_simultaneous_exits")
+    if not timeout:
+        run.count("e3_histories_with_timeout_0")
     exited = [p for p in k.procs.values() if p.state != "run"]
     if len(exited) < nexits:
         return v, "only %d of %d scripted exits happened" % (len(exited), nexits), k
-    desc = "%d of %d workers exit with status 0 at t=%.1f, placed %s" % (nexits, workers, at, plan)
+    desc = "%d of %d workers exit with status 0 at t=%.1f, placed %s%s" % (nexits, workers, at, plan,
+                                                                         "" if timeout else ", timeout = 0 (workers are never timed out)")
     if k.exit_code != "running":
         errs = [m for lvl, m in getattr(k, "log_records", []) if lvl in ("error", "exception", "critical")][:2]
         exc = [e for e in k.log if e[1] == "master_exception"][:1]
@@ -235,6 +315,8 @@ def e3_cell(run, e3, workers, nexits, at, plan):
             v.append(("recycled-worker-not-replaced/simulated", "%s: %d live workers 5 s later, %d configured" % (desc, live, workers)))
         else:
             run.count("e3_pool_restored_checks")
+            if not timeout:
+                run.count("e3_pool_restored_checks_with_timeout_0")
     return v, None, k
 
 
@@ -258,10 +340,13 @@ def live_scenario(run, e4, sc):
     v = []
     info = {}
     wc, nworkers, m, j = sc["class"], sc["workers"], sc["max_requests"], sc["jitter"]
-    settings = {"max_requests": m, "max_requests_jitter": j, "graceful_timeout": 5, "timeout": 30, "keepalive": sc.get("keepalive", 2)}
+    settings = {"max_requests": m, "max_requests_jitter": j, "graceful_timeout": 5, "timeout": sc.get("timeout", 30),
+                "keepalive": sc.get("keepalive", 2)}
     if wc == "gthread":
         settings["threads"] = 4
     app_source = None
+    give_up = threading.Event()        # (timeout = 0 scenarios only) the pool has stayed low: the verdict is in, stop the load
+    req_timeout = sc.get("request_timeout", 10)
     if sc.get("failing"):
         settings["accesslog"] = "-"
         settings["access_log_format"] = "ACCESS pid=%(p)s %(U)s %(s)s"
@@ -281,7 +366,7 @@ def live_scenario(run, e4, sc):
         def client():
             while True:
                 with lock:
-                    if counter[0] >= nreq:
+                    if counter[0] >= nreq or give_up.is_set():
                         return
                     counter[0] += 1
                 with lock:
@@ -289,12 +374,12 @@ def live_scenario(run, e4, sc):
                 addr = srv.addr2 if sc.get("bind") == "both" and k % 2 else srv.addr
                 if sc.get("failing") and k % 3 != 0:
                     # requests that fail inside the application (the usual reason for max_requests: a worker gone bad)
-                    r = e4.request(addr, "/boom", timeout=10)
+                    r = e4.request(addr, "/boom", timeout=req_timeout)
                     r["expected_failure"] = True
                     if r["outcome"] == "ok" or e4.status_of(r["data"]) == 500:
                         r["outcome"] = "ok-500" if e4.status_of(r["data"]) == 500 else "boom-answered-" + str(e4.status_of(r["data"]))
                 else:
-                    r = e4.request(addr, "/pid", timeout=10)
+                    r = e4.request(addr, "/pid", timeout=req_timeout)
                 log.append(r)
                 if sc.get("pace"):
                     time.sleep(sc["pace"])
@@ -313,6 +398,8 @@ def live_scenario(run, e4, sc):
                     if now - low_since > 3.0:
                         pool_low.append((now, n))
                         low_since = now
+                        if "timeout" in sc:
+                            give_up.set()
                 else:
                     low_since = None
                 time.sleep(0.05)
@@ -396,6 +483,8 @@ def live_scenario(run, e4, sc):
                 v.append(("no-recycling-observed", "%d requests answered by %d pids only" % (len(log), len(per_pid))))
             else:
                 run.count("live_recycling_observed")
+                if sc.get("timeout") == 0 and not pool_low:
+                    run.count("live_recycling_with_timeout_0")
                 if not sc.get("keepalive", 2):
                     run.count("live_recycling_with_keepalive_off/" + wc)
                 if sc.get("bind") == "unix":
@@ -460,6 +549,78 @@ def keepalive_reuse_scenario(run, e4, sc):
         srv.cleanup()
 
 
+def inflight_scenario(run, e4, sc):
+    """A request that is still being processed - and will be for seconds - when ANOTHER request reaches the limit: `those in
+    flight are answered in full` (within graceful_timeout, 12 s here), then the worker exits and a new one answers."""
+    v = []
+    info = {}
+    wc, nap = sc["class"], sc.get("nap", 4.0)
+    settings = {"max_requests": 2, "keepalive": 2, "graceful_timeout": 12, "timeout": 30}
+    if wc == "gthread":
+        settings["threads"] = 4
+    srv = e4.Server("c18", worker_class=wc, workers=1, settings=settings, bind=sc.get("bind", "tcp"))
+    try:
+        srv.start()
+        w0 = srv.wait_workers(1, 25)
+        if not w0 or not srv.wait_listening(5):
+            return v, "server did not boot: %s" % srv.stderr()[-300:], info
+        res = {}
+        t = threading.Thread(target=lambda: res.update(r1=e4.request(srv.addr, "/nap/%s/r1" % nap, timeout=nap + 14)), daemon=True)
+        t0 = time.monotonic()
+        t.start()
+        served = srv.wait_phase("nap r1", 8)
+        if served is None:
+            return v, "the long request did not reach the application", info
+        r2 = e4.request(srv.addr, "/pid", timeout=6)
+        info["limit_request"] = r2["outcome"]
+        if r2["outcome"] != "ok" or b"pid=%d " % served not in e4.body_of(r2["data"]):
+            t.join(nap + 15)
+            if r2["outcome"] != "ok":
+                v.append(("client-request-lost-at-recycle/" + wc, "the request that reaches max_requests=2 while another one is in flight "
+                          "-> %s" % r2["outcome"]))
+                return v, None, info
+            return v, "the second request was not answered by the worker that holds the first", info
+        if time.monotonic() - t0 > nap - 2.5:
+            t.join(nap + 15)
+            return v, "scheduling lag: the limit was reached only %.1f s after the long request began" % (time.monotonic() - t0), info
+        t.join(nap + 15)
+        r1 = res.get("r1")
+        info["in_flight_request"] = r1 and r1["outcome"]
+        info["seconds"] = r1 and round(r1["t_done"] - r1["t_call"], 2)
+        if not r1 or r1["outcome"] != "ok" or b"pid=%d " % served not in e4.body_of(r1["data"]):
+            v.append(("in-flight-request-lost-at-recycle/long-request/" + wc,
+                      "%s, max_requests=2, graceful_timeout=12: a request that takes %.1f s was in flight (application entered, pid %d) "
+                      "when a second request reached the limit; the second was answered, the first -> %s after %.1f s, %d bytes (%r); "
+                      "worker alive: %s" % (wc, nap, served, r1 and r1["outcome"], (r1["t_done"] - r1["t_call"]) if r1 else -1,
+                                            len(r1["data"]) if r1 else 0, r1 and r1["data"][:40], e4.alive(served))))
+            return v, None, info
+        run.count("live_long_in_flight_request_answered")
+        run.count("live_long_in_flight_request_answered/" + wc)
+        # the worker then exits and is replaced
+        t1 = time.monotonic()
+        nxt = None
+        while time.monotonic() - t1 < 8:
+            srv.reap()
+            w = srv.wait_workers(1, 0.3)
+            if w and served not in w and not e4.alive(served):
+                nxt = w[0]
+                break
+            time.sleep(0.05)
+        if nxt is None:
+            v.append(("recycled-worker-not-replaced", "%s: 8 s after the last request in flight was answered the pool is %s, recycled "
+                      "worker %d alive: %s" % (wc, srv.worker_pids(), served, e4.alive(served))))
+            return v, None, info
+        r3 = e4.request(srv.addr, "/pid", timeout=6)
+        info["after"] = r3["outcome"]
+        if r3["outcome"] != "ok":
+            v.append(("client-request-lost-at-recycle/" + wc, "request after the recycling -> %s" % r3["outcome"]))
+        else:
+            run.count("live_replacement_answers_after_long_request")
+        return v, None, info
+    finally:
+        srv.cleanup()
+
+
 def live_scenarios(tier, seed):
     rng = rng_for(seed, "c18-live")
     out = []
@@ -491,9 +652,18 @@ def live_scenarios(tier, seed):
                 "requests": 200, "bind": "both"})
     for wc in ("gevent", "eventlet"):
         out.append({"class": wc, "kind": "keepalive-reuse", "workers": 1, "max_requests": 3, "jitter": 0, "concurrency": 2, "requests": 4})
+    # a request that needs seconds is in flight when another one reaches the limit (every concurrent class)
+    for wc in ("gevent", "eventlet", "gthread"):
+        out.append({"class": wc, "kind": "in-flight-long", "workers": 1, "max_requests": 2, "jitter": 0, "concurrency": 2, "requests": 3,
+                    "nap": 4.0, "bind": rng2.choice(["tcp", "unix"]) if tier != "quick" else "tcp"})
+    # timeout = 0 ("workers are never timed out"): recycled workers are replaced all the same
+    classes = ["sync", "gthread", "gevent", "eventlet"]
+    for wc in ([classes[seed % 4]] if tier == "quick" else classes):
+        out.append({"class": wc, "workers": 2, "max_requests": rng.randint(2, 3), "jitter": 0, "concurrency": 1,
+                    "requests": 48 if wc in ("gevent", "eventlet") else 24, "timeout": 0, "request_timeout": 5})
     for i, sc in enumerate(out):
         sc["idx"] = i
-        if sc.get("kind") == "keepalive-reuse":
+        if sc.get("kind") in ("keepalive-reuse", "in-flight-long"):
             continue
         if sc["class"] in ("gevent", "eventlet") and sc["max_requests"]:
             # these workers look at their own `alive` flag once per second: make the load span several ticks
@@ -523,16 +693,20 @@ def shard(sh):
     elif sh["kind"] == "e3":
         from vlib import e3_simkernel as e3
         rng = rng_for(sh["seed"], "c18-e3", sh["sub"])
-        for (workers, nexits, at) in sh["cells"]:
-            for plan in e3_plans(tier, rng, workers, nexits, 4 + 4 * workers):
+        for cell in sh["cells"]:
+            workers, nexits, at = cell[:3]
+            timeout = cell[3] if len(cell) > 3 else 30
+            # (with timeout = 0 the master's pass over the worker table ends at its first line: two placements inside it)
+            for plan in e3_plans(tier, rng, workers, nexits, (4 + 4 * workers) if timeout else 2):
                 if run.enough():
                     break
-                v, reason, k = e3_cell(run, e3, workers, nexits, at, plan)
-                run.case(("e3", workers, nexits, at, tuple(i for i, _ in k.deliveries)))
+                v, reason, k = e3_cell(run, e3, workers, nexits, at, plan, timeout)
+                run.case(("e3", workers, nexits, at, timeout, tuple(i for i, _ in k.deliveries)))
                 if reason is not None:
-                    run.inconclusive_because("simulated history (%d workers, %d exits, %s): %s" % (workers, nexits, plan, reason))
+                    run.inconclusive_because("simulated history (%d workers, %d exits, %s, timeout %s): %s" % (
+                        workers, nexits, plan, timeout, reason))
                 for mech, summary in v:
-                    run.violation(mech, summary, {"part": "e3", "cell": [workers, nexits, at, plan]})
+                    run.violation(mech, summary, {"part": "e3", "cell": [workers, nexits, at, plan, timeout]})
         run.sample({"part": "e3", "cells": sh["cells"][:2]}, cap=1)
     elif sh["kind"] == "e5":
         from vlib import e5_gthread as e5
@@ -540,7 +714,8 @@ def shard(sh):
         for i in range(sh["n"]):
             if run.enough():
                 break
-            v, case, k = e5_cell(run, e5, rng)
+            # every fifth history is the targeted one: limit reached while the loop polls, then a request on an earlier connection
+            v, case, k = (e5_late_request_cell if i % 5 == 4 else e5_cell)(run, e5, rng)
             run.case(("e5", common.sha12(case)))
             if k.hang:
                 run.inconclusive_because("harness watchdog: " + k.hang)
@@ -553,12 +728,14 @@ def shard(sh):
         for attempt in range(2):
             if sc.get("kind") == "keepalive-reuse":
                 v, reason, info = keepalive_reuse_scenario(run, e4, sc)
+            elif sc.get("kind") == "in-flight-long":
+                v, reason, info = inflight_scenario(run, e4, sc)
             else:
                 v, reason, info = live_scenario(run, e4, sc)
             if reason is None or v:
                 break
         run.case(("live", sc.get("kind", "load")) + tuple(sc[k] for k in ("class", "workers", "max_requests", "jitter", "concurrency")) +
-                 (sc.get("keepalive", 2), sc.get("bind", "tcp")))
+                 (sc.get("keepalive", 2), sc.get("bind", "tcp"), sc.get("timeout", 30)))
         run.count("live_scenarios")
         run.count("live_class/" + sc["class"])
         for mech, summary in v:
@@ -572,6 +749,30 @@ def shard(sh):
     return run
 
 
+def plan(tier, seed):
+    cells = []
+    for kind in ("sync", "gthread", "async"):
+        for m in range(0, 7):
+            for j in range(0, 4):
+                for pc in ((1,) if kind == "sync" else (1, 2, 3)):
+                    for rep in range(2 if tier == "quick" else 8):
+                        cells.append((kind, m, j, pc))
+                    if pc <= 2 and (m or j == 0):
+                        cells.append((kind, m, j, pc, 0))          # keep-alive switched off
+    # the live scenarios mostly wait on wall-clock time (a 4 s request, paced load): they are started first, the longest at the
+    # front, and the in-process shards fill the remaining cores
+    live = live_scenarios(tier, seed)
+    live.sort(key=lambda sc: (sc.get("kind") != "in-flight-long", -sc["requests"] * (sc.get("pace") or 0.01) / sc["concurrency"]))
+    shards = [{"kind": "live", "scenario": sc, "seed": seed, "tier": tier} for sc in live]
+    shards += [{"kind": "e2", "cells": cells[i::12], "seed": seed, "tier": tier} for i in range(12)]
+    e3_cells = [(w, x, at) for w in (1, 2, 3, 4) for x in range(1, w + 1) for at in (1.0, 1.4)]
+    # the same with timeout = 0 (documented: workers are never timed out): recycled workers are replaced all the same
+    e3_cells += [(w, x, at, 0) for w in (1, 2, 3) for x in range(1, w + 1) for at in (1.0, 1.4)]
+    shards += [{"kind": "e3", "cells": e3_cells[i::2], "sub": i, "seed": seed, "tier": tier} for i in range(2)]
+    shards += [{"kind": "e5", "n": 150 if tier == "quick" else 3000, "sub": i, "seed": seed, "tier": tier} for i in range(4)]
+    return shards
+
+
 def main(tier, seed):
     run = Run(PROP, tier, seed, "exploration", RULE)
     run.require("e2_cells", "e2_limit_reached", "e2_unlimited_1000_requests", "live_scenarios", "live_requests",
@@ -582,21 +783,15 @@ def main(tier, seed):
                 "e2_limit_reached_with_keepalive_off/async", "e3_histories", "e3_worker_exits_inside_murder_workers",
                 "e3_worker_exits_while_master_sleeps", "e3_simultaneous_exits", "e3_pool_restored_checks", "live_master_alive_checks",
                 "live_unix_socket_file_checks", "live_recycling_with_keepalive_off/gevent", "live_recycling_with_keepalive_off/eventlet",
-                "live_recycling_on_unix_bind/gthread")
-    cells = []
-    for kind in ("sync", "gthread", "async"):
-        for m in range(0, 7):
-            for j in range(0, 4):
-                for pc in ((1,) if kind == "sync" else (1, 2, 3)):
-                    for rep in range(2 if tier == "quick" else 8):
-                        cells.append((kind, m, j, pc))
-                    if pc <= 2 and (m or j == 0):
-                        cells.append((kind, m, j, pc, 0))          # keep-alive switched off
-    shards = [{"kind": "e2", "cells": cells[i::12], "seed": seed, "tier": tier} for i in range(12)]
-    e3_cells = [(w, x, at) for w in (1, 2, 3, 4) for x in range(1, w + 1) for at in (1.0, 1.4)]
-    shards += [{"kind": "e3", "cells": e3_cells[i::2], "sub": i, "seed": seed, "tier": tier} for i in range(2)]
-    shards += [{"kind": "e5", "n": 150 if tier == "quick" else 3000, "sub": i, "seed": seed, "tier": tier} for i in range(4)]
-    shards += [{"kind": "live", "scenario": sc, "seed": seed, "tier": tier} for sc in live_scenarios(tier, seed)]
+                "live_recycling_on_unix_bind/gthread",
+                # a request arriving on an earlier accepted connection while the limit is reached (scripted gthread loop)
+                "e5_late_request_histories", "e5_late_request_dispatched_after_limit", "e5_late_request_answered",
+                # timeout = 0
+                "e3_histories_with_timeout_0", "e3_pool_restored_checks_with_timeout_0", "live_recycling_with_timeout_0",
+                # a request that needs seconds, in flight at the limit
+                "live_long_in_flight_request_answered/gevent", "live_long_in_flight_request_answered/eventlet",
+                "live_long_in_flight_request_answered/gthread", "live_replacement_answers_after_long_request")
+    shards = plan(tier, seed)
     run.assumptions = [
         "concurrent workers may finish the connections already accepted when the limit is hit: bounded by the number of concurrent client connections the harness opens",
         "E2 reads worker.alive of the in-process worker object as the 'will stop accepting' signal; the live part observes the same through answering pids",
@@ -627,10 +822,10 @@ def replay(path):
         k = e5.run_history(c["case"]["cfg"], [tuple(x) for x in c["case"]["history"]], 1)
         for e in k.log:
             print("  ", e)
-        v = list(k.violations)
+        v = list(k.violations) + e5_discards(k)[0]
     else:
         from vlib import e4_live as e4
-        fn = keepalive_reuse_scenario if c["scenario"].get("kind") == "keepalive-reuse" else live_scenario
+        fn = {"keepalive-reuse": keepalive_reuse_scenario, "in-flight-long": inflight_scenario}.get(c["scenario"].get("kind"), live_scenario)
         v, reason, info = fn(run, e4, c["scenario"])
         print("info:", info, "inconclusive:", reason)
     for mech, s in v:
